@@ -7,14 +7,19 @@ scheduler.  The statement sequence of the sink body is extracted from the source
             thread holds the mutex; the guard is released when the body ends.
 * `write` : `stream << formatted_record` — one scheduler step **per byte**: the underlying stream is
             assumed to give no atomicity whatsoever.
-* `flush` : `<< std::flush`.
+* `flush` : `<< std::flush` — an access to the stream like any other (`inStream`).
+* `unlock`: the end of a nested block that holds the guard, or an explicit `unlock()`: the mutex is
+            released before the body ends.
+
+The body executed for a record may depend on the record (`P : Rec → List Instr`; in the source: on
+its severity, which the harness and the driver carry in the record's third byte).
 
 `done` is a history variable: the records whose sink call has completed, in completion order.
 -/
 namespace NitroVerif.MT
 
 inductive Instr where
-  | lock | write | flush
+  | lock | write | flush | unlock
   deriving DecidableEq, Repr
 
 abbrev Rec := List Nat
@@ -35,12 +40,12 @@ def updT (f : Nat → Thread) (i : Nat) (t : Thread) : Nat → Thread := fun k =
 
 /-- One scheduler step: thread `i` runs one instruction (one byte, for `write`).  A blocked or
 finished thread does nothing. -/
-def step (prog : List Instr) (s : Sys) (i : Nat) : Sys :=
+def step (P : Rec → List Instr) (s : Sys) (i : Nat) : Sys :=
   let t := s.threads i
   match t.todo with
   | [] => s
   | r :: rest =>
-    match prog[t.pc]? with
+    match (P r)[t.pc]? with
     | none =>
       -- end of the sink body: the guard's destructor releases the mutex, the record is done
       { threads := updT s.threads i ⟨rest, 0, 0⟩,
@@ -55,19 +60,34 @@ def step (prog : List Instr) (s : Sys) (i : Nat) : Sys :=
       | some b => { s with threads := updT s.threads i { t with wpos := t.wpos + 1 }, out := s.out ++ [b] }
       | none => { s with threads := updT s.threads i { t with pc := t.pc + 1 } }
     | some .flush => { s with threads := updT s.threads i { t with pc := t.pc + 1 } }
+    | some .unlock =>
+      { s with threads := updT s.threads i { t with pc := t.pc + 1 },
+               holder := if s.holder = some i then none else s.holder }
 
-def runs (prog : List Instr) (s : Sys) : List Nat → Sys
+def runs (P : Rec → List Instr) (s : Sys) : List Nat → Sys
   | [] => s
-  | i :: sched => runs prog (step prog s i) sched
+  | i :: sched => runs P (step P s i) sched
 
 def init (recs : Nat → List Rec) : Sys :=
   { threads := fun i => ⟨recs i, 0, 0⟩, holder := none, out := [], done := [] }
 
-/-- thread `i` is inside the stream: it has started writing a record and not finished the body -/
-def inStream (prog : List Instr) (s : Sys) (i : Nat) : Bool :=
-  (s.threads i).todo != [] && (match prog[(s.threads i).pc]? with
+/-- thread `i` is inside the stream: it has handed over a byte of its record and not finished the
+insertion, or it is about to flush -/
+def inStream (P : Rec → List Instr) (s : Sys) (i : Nat) : Bool :=
+  match (s.threads i).todo with
+  | [] => false
+  | r :: _ =>
+    match (P r)[(s.threads i).pc]? with
     | some .write => (s.threads i).wpos > 0
     | some .flush => true
-    | _ => (s.threads i).pc > 0 && (s.threads i).pc ≥ prog.length)
+    | _ => false
+
+/-- the severity of a record as the harness and the driver encode it: third byte minus one
+(0 = trace … 5 = fatal) -/
+def sevOf (r : Rec) : Nat := (r.getD 2 1) - 1
+
+/-- the sink body for a record, given the bodies per severity (translator output) -/
+def sinkProg (progs : List (List Instr)) (r : Rec) : List Instr :=
+  progs.getD (sevOf r) (progs.headD [])
 
 end NitroVerif.MT
